@@ -53,7 +53,7 @@ func errorList(stdout string) (items []int, count int, hasBlock bool, countFound
 // g is the reference output for this world ("" if the reference run rejected it / unknown).
 func contract(w *World, r *Result, refExit int, g *FileObs) (clause, detail string) {
 	quiet := w.HasFlag("--quiet") || w.HasFlag("-q")
-	if r.Exit == -1 {
+	if r.Exit == -1 || r.Exit == -3 {
 		return "panic", "the command panicked:\n" + r.Panic
 	}
 	if r.Exit == -2 {
@@ -190,7 +190,7 @@ func sweepFaults(src *choice.Src, ref *Result, w *World) []simrt.Fault {
 // judgeFaulted evaluates one faulted run against the reference run of the same world.
 func judgeFaulted(t Target, w *World, ref *Result, fw *World, fr *Result, st *Stats) (clause, detail string) {
 	var g *FileObs
-	if ref.Exit == 0 && (w.OutKind == "file") {
+	if ref.Exit == 0 && (w.OutKind == "file" || w.OutKind == "symlink") {
 		o := ref.Out
 		g = &o
 	}
@@ -247,7 +247,7 @@ func judgeFaulted(t Target, w *World, ref *Result, fw *World, fr *Result, st *St
 			return "corrupt-read-differs-from-file-with-same-bytes:" + strings.Join(d, "+"), explain(cr, fr)
 		}
 		var cg *FileObs
-		if cr.Exit == 0 && w.OutKind == "file" {
+		if cr.Exit == 0 && (w.OutKind == "file" || w.OutKind == "symlink") {
 			o := cr.Out
 			cg = &o
 		}
@@ -331,12 +331,26 @@ func CheckC10(t Target, src *choice.Src, st *Stats) *Violation {
 	}
 	// ---- pass 1: no injected faults
 	var g *FileObs
-	if ref.Exit == 0 && w.OutKind == "file" {
+	if ref.Exit == 0 && (w.OutKind == "file" || w.OutKind == "symlink") {
 		o := ref.Out
 		g = &o
 	}
 	if c, d := contract(w, ref, ref.Exit, g); c != "" {
 		return c10Violation("nofault:"+c+":"+classKey(w), d+"\n"+tail(ref.Stdout, 12), w)
+	}
+	// "the complete generated source" is what the same world writes to a fresh path: whatever -o
+	// was before (a file with other content and mode, a symbolic link), the bytes must be the same
+	if ref.Exit == 0 && g != nil && (w.PreOut != nil || w.OutKind == "symlink") {
+		fw := w.Clone()
+		fw.OutKind, fw.PreOut, fw.Out = "file", nil, "fresh_output_twin.go"
+		fr := Exec(t, fw)
+		if st != nil {
+			st.note(fw, fr)
+			st.Probes["fresh-output-twins"]++
+		}
+		if fr.Exit == 0 && fr.Out.Sha != ref.Out.Sha {
+			return c10Violation("nofault:exit0-incomplete-output:differs-from-fresh-path:"+w.OutKind, fmt.Sprintf("exit 0, but the bytes at the pre-existing -o (%s, %d bytes) differ from what the same build writes to a fresh path (%d bytes)", w.OutKind, ref.Out.Size, fr.Out.Size), w, fw)
+		}
 	}
 	if why := mustFail(w); why != "" && ref.Exit == 0 {
 		return c10Violation("nofault:exit0-on-failure-class:"+why, "the world is in failure class "+why+" but the command exited 0\n"+tail(ref.Stdout, 12), w)
@@ -457,8 +471,15 @@ func tail(s string, n int) string {
 func replayC10(t Target, v *Violation) (string, string) {
 	w := v.Worlds[0]
 	ref := Exec(t, w)
+	if strings.HasPrefix(v.Sig, "nofault:exit0-incomplete-output:differs-from-fresh-path") && len(v.Worlds) == 2 {
+		fr := Exec(t, v.Worlds[1])
+		if ref.Exit == 0 && fr.Exit == 0 && fr.Out.Sha != ref.Out.Sha {
+			return v.Sig, fmt.Sprintf("pre-existing -o: %d bytes, fresh path: %d bytes", ref.Out.Size, fr.Out.Size)
+		}
+		return "", ""
+	}
 	var g *FileObs
-	if ref.Exit == 0 && w.OutKind == "file" {
+	if ref.Exit == 0 && (w.OutKind == "file" || w.OutKind == "symlink") {
 		o := ref.Out
 		g = &o
 	}
